@@ -14,6 +14,12 @@ Hessians, molecule-attached vectors and their nuclear derivatives; 3x3 blocking 
   map; energy, gradient and Hessian at the aligned geometry must equal the aligned quantities; a
   translation-invariant, rotation-covariant vector field with closed-form Jacobian for align_vector /
   align_vector_gradient (recipes without mirror); per-atom arrays; inverse recipe; blocking round trip.
+  Discipline "retain, then judge": per case everything is first sent through the recipes (first geometry, a second
+  geometry and a second set of couplings through the same live recipe object, the first geometry through the inverse
+  recipe = another recipe object for the same number of atoms) and the arrays are kept exactly as returned; only then
+  are they compared - a result that a later call overwrote (shared work array) is seen.  Arrays are handed over
+  C-ordered, Fortran-ordered or as strided windows (not the Hessian: blockwise_expand asserts contiguity); in half of
+  the cases the caller's buffers are overwritten after each call (a result must not be a live view of its argument).
 """
 import math
 from fractions import Fraction
@@ -32,12 +38,12 @@ ALLOWED_AXIOMS = {
     "FunctionalExtensionality.functional_extensionality_dep",
 }
 TRUSTED = [
-    "translator harness/translate/millgen.py (Python ast -> let-chains over the array combinators of Model/MillOps.v, fail-closed) "
-    "for the bodies of AlignmentMill.align_coordinates/align_atoms/align_vector/align_gradient/align_hessian and the per-atom block "
-    "of align_vector_gradient; the generated functions are PROVED equal to the hand-written model (C13_translated_*)",
+    "translator harness/translate/millgen.py (Python ast -> let-chains over the array combinators of Model/MillOps.v and the loop / "
+    "slice-store combinators of Model/MillLoop.v, fail-closed) for the bodies of AlignmentMill.align_coordinates/align_atoms/"
+    "align_vector/align_gradient/align_hessian and the whole of align_vector_gradient (per-atom block and atom loop); the generated "
+    "functions are PROVED equal to the hand-written model (C13_translated_*)",
     "hand-written model coq/Model/Mill.v (AlignmentMill) and coq/Model/Blockwise.v (util/np_blockwise.py, any 2-d block shape), "
-    "tied by differential execution at K = Q (this file); the atom loop of align_vector_gradient and np_blockwise are tied by "
-    "differential execution only",
+    "tied by differential execution at K = Q (this file); np_blockwise is tied by differential execution only",
     "numpy semantics used by the code and transcribed into the model: ndarray.dot, fancy indexing arr[idx] / np.ix_, "
     "in-place column scaling, as_strided with the stated strides, reshape/swapaxes in C order (modelled, not verified)",
     "binary64 arithmetic of the implementation is compared with the exact rational model: exactly on dyadic inputs "
@@ -265,6 +271,7 @@ def build_bcase(rng, k):
         keep = a.copy()
         try:
             view = blockwise_expand(a, (br, bc), False, al) if rng.random() < 0.5 else blockwise_expand(a, (br, bc), require_aligned_blocks=al)
+            blockwise_expand(1.0 - a, (br, bc), False, al)          # another array of the same shape, before the first view is read
             shape_ok = view.shape == (h // br, w // bc, br, bc)
             res = ("Ok", [float(t) for t in np.array(view).reshape(-1)]) if shape_ok else ("Err", "shape %s" % (view.shape,))
         except AssertionError:
@@ -298,6 +305,7 @@ def build_bcase(rng, k):
         case = {"kind": "bcontract", "shape": [gr, gc], "block": [br, bc], "x": B}
         try:
             arr = blockwise_contract(np.array(B).reshape(gr, gc, br, bc))
+            blockwise_contract(1.0 - np.array(B).reshape(gr, gc, br, bc))   # another array of the same shape, before the first result is read
             out = [float(t) for t in arr.reshape(-1)]
             if arr.shape != (gr * br, gc * bc):
                 case["oracle"] = ("blockwise_contract of a (%d,%d,%d,%d) array has shape %s, not (%d,%d)" % (gr, gc, br, bc, arr.shape, gr * br, gc * bc), {})
@@ -489,7 +497,8 @@ def gen_oracle_case(rng, mill=None, n=None, opts=None):
             i, j, k = rng.sample(range(n), 3)
             triples.append([i, j, k, rng.uniform(-1, 1)])
     return {"mill": mill, "x": x.tolist(), "c": c.tolist(), "r0": r0.tolist(), "w": w.tolist(), "triples": triples,
-            "energy": rng.choice(["coulomb", "harmonic"]), "field": rng.choice(["invcube", "square"])}
+            "energy": rng.choice(["coulomb", "harmonic"]), "field": rng.choice(["invcube", "square"]),
+            "reuse_buffers": rng.random() < 0.5, "layout": rng.choice(["C", "C", "F", "view"])}
 
 
 def close(a, b, rtol=1e-9):
@@ -505,24 +514,68 @@ class Bad(Exception):
         self.what, self.observed = what, observed or {}
 
 
-def pure(f, a, what, **kw):
+def pure(f, a, what, reuse=False, layout="C", **kw):
     """call f on a private copy of the caller's array; the array must come back unchanged (an in-place update of the
-    caller's data makes every later use of it - e.g. aligning it again - wrong)"""
+    caller's data makes every later use of it - e.g. aligning it again - wrong).  With reuse=True the caller then re-uses
+    its buffer for something else (it is overwritten): the result that was returned must not depend on it any more."""
     arr = np.array(a, copy=True)
+    if layout == "F":                       # the same numbers, Fortran-ordered
+        arr = np.asfortranarray(arr)
+    elif layout == "view" and arr.ndim == 2:  # ... or a strided window into a larger array
+        big = np.full((2 * arr.shape[0], arr.shape[1] + 2), 3.25)
+        big[::2, 1:-1] = arr
+        arr = big[::2, 1:-1]
+    elif layout == "view":
+        big = np.full(2 * arr.shape[0] + 1, 3.25)
+        big[1::2] = arr
+        arr = big[1::2]
     res = f(arr, **kw)
     if not np.array_equal(arr, np.asarray(a)):
         raise Bad(what + " modified the array it was given (aligning the same data again gives another result)",
                   {"max_abs_change": float(np.max(np.abs(arr - np.asarray(a))))})
+    if reuse:
+        arr[...] = -77.25
     return res
 
 
-def covariance(m, md, case, x, tag=""):
-    """covariance of energy/gradient/Hessian and of the vector field under the live recipe object m at geometry x"""
+LATER = " [result kept while other data went through align_* methods, then compared]"
+
+
+def transform(m, md, case, x, tag="", scale=1.0):
+    """Send everything attached to the molecule at geometry x through the live recipe object m and RETAIN the arrays
+    exactly as they were returned (no copies): energy/gradient/Hessian of the test energy, the vector field and its
+    Jacobian (couplings multiplied by `scale`: another field), per-atom labels.  Nothing is compared here - judge() does that
+    after further calls have been made, as a caller who transforms several quantities before consuming them would."""
     p = list(md["atommap"])
     n = len(p)
+    reuse = bool(case.get("reuse_buffers"))
+    lay = case.get("layout", "C")           # memory layout of the arrays handed over (the Hessian stays C-contiguous: blockwise_expand
+    #                                         documents and asserts that it only accepts contiguous arrays)
     c, r0, w = (np.array(case[k], dtype=float) for k in ("c", "r0", "w"))
+    c, w = c * scale, w * scale
+    triples = [(i, j, k, cc * scale) for (i, j, k, cc) in (tuple(t) for t in case.get("triples", []))]
+    E, g, H = total_energy(case, x, c, r0, triples)
+    out = {"tag": tag, "md": md, "x": np.array(x, copy=True), "c": c, "r0": r0, "w": w, "triples": triples, "E": E, "H": H}
+    out["y"] = pure(m.align_coordinates, x, tag + "align_coordinates", reuse, lay)
+    out["ag"] = pure(m.align_gradient, g, tag + "align_gradient", reuse, lay)
+    out["ah"] = pure(m.align_hessian, H, tag + "align_hessian", reuse)
+    out["labels"] = np.array(["%s%d" % (tag[:1] or "A", k) for k in range(n)])
+    out["alabels"] = m.align_atoms(out["labels"])
+    if not md["mirror"]:
+        mu, J = vector_field(case["field"], x, w, triples)
+        out["av"] = pure(m.align_vector, mu, tag + "align_vector", reuse, lay)
+        out["aj"] = pure(m.align_vector_gradient, J, tag + "align_vector_gradient", reuse, lay)
+    return out
+
+
+def judge(case, t):
+    """covariance of what transform() retained: the aligned quantities must be the quantities at the aligned geometry"""
+    md, x, tag = t["md"], t["x"], t["tag"]
+    p = list(md["atommap"])
+    n = len(p)
+    c, r0, w, triples = t["c"], t["r0"], t["w"], t["triples"]
     ix = np.ix_(p, p)
-    y = pure(m.align_coordinates, x, "align_coordinates")
+    y = t["y"]
     if np.asarray(y).shape != (n, 3):
         raise Bad(tag + "aligned geometry has the wrong shape", {"shape": list(np.asarray(y).shape)})
     # the recipe is the stated rigid motion, atom by atom
@@ -531,39 +584,41 @@ def covariance(m, md, case, x, tag=""):
     for i in range(n):
         ref = ((S @ x[p[i]]) - np.array(md["shift"])) @ R
         if not close(y[i], ref):
-            raise Bad(tag + "aligned atom %d is not (mirror, -shift, .rotation) of atom atommap[%d]" % (i, i),
+            raise Bad(tag + "aligned atom %d is not (mirror, -shift, .rotation) of atom atommap[%d]" % (i, i) + LATER,
                       {"got": list(map(float, y[i])), "expected": ref.tolist()})
+    if list(t["alabels"]) != [t["labels"][k] for k in p]:
+        raise Bad(tag + "align_atoms does not permute per-atom arrays by atommap" + LATER, {"got": [str(s) for s in t["alabels"]]})
     # invariant energy: value, gradient, Hessian at the aligned geometry
-    triples = [tuple(t) for t in case.get("triples", [])]
     q = [p.index(k) for k in range(n)]          # atom k of x is atom q[k] of the aligned geometry
-    E, g, H = total_energy(case, x, c, r0, triples)
-    E2, g2, H2 = total_energy(case, np.asarray(y, dtype=float), c[ix], r0[ix], [(q[i], q[j], q[k], cc) for (i, j, k, cc) in triples])
-    if not close(E, E2):
-        raise Bad(tag + "energy not invariant under the recipe's rigid motion", {"E": E, "E_aligned": E2})
-    ag = pure(m.align_gradient, g, "align_gradient")
+    tq = [(q[i], q[j], q[k], cc) for (i, j, k, cc) in triples]
+    E2, g2, H2 = total_energy(case, np.asarray(y, dtype=float), c[ix], r0[ix], tq)
+    if not close(t["E"], E2):
+        raise Bad(tag + "energy not invariant under the recipe's rigid motion", {"E": t["E"], "E_aligned": E2})
+    ag = t["ag"]
     if not close(ag, g2):
-        raise Bad(tag + "gradient at aligned geometry != aligned gradient", {"aligned": np.asarray(ag).tolist(), "at_aligned": g2.tolist()})
-    ah = pure(m.align_hessian, H, "align_hessian")
+        raise Bad(tag + "gradient at aligned geometry != aligned gradient" + LATER, {"aligned": np.asarray(ag).tolist(), "at_aligned": g2.tolist()})
+    ah = t["ah"]
     if not close(ah, H2):
         k = int(np.argmax(np.abs(np.asarray(ah) - H2))) if np.asarray(ah).shape == H2.shape else -1
-        raise Bad(tag + "Hessian at aligned geometry != aligned Hessian",
+        raise Bad(tag + "Hessian at aligned geometry != aligned Hessian" + LATER,
                   {"worst_flat_index": k, "max_abs_diff": float(np.max(np.abs(np.asarray(ah) - H2))) if k >= 0 else None})
     # molecule-attached vector and its nuclear derivatives (recipes without mirror)
     if not md["mirror"]:
-        mu, J = vector_field(case["field"], x, w, triples)
-        mu2, J2 = vector_field(case["field"], np.asarray(y, dtype=float), w[ix], [(q[i], q[j], q[k], cc) for (i, j, k, cc) in triples])
-        av = pure(m.align_vector, mu, "align_vector")
+        mu2, J2 = vector_field(case["field"], np.asarray(y, dtype=float), w[ix], tq)
+        av = t["av"]
         if not close(av, mu2):
-            raise Bad(tag + "vector at aligned geometry != aligned vector", {"aligned": np.asarray(av).tolist(), "at_aligned": mu2.tolist()})
-        aj = pure(m.align_vector_gradient, J, "align_vector_gradient")
+            raise Bad(tag + "vector at aligned geometry != aligned vector" + LATER, {"aligned": np.asarray(av).tolist(), "at_aligned": mu2.tolist()})
+        aj = t["aj"]
         if not close(aj, J2):
-            raise Bad(tag + "vector derivatives at aligned geometry != aligned vector derivatives",
-                      {"max_abs_diff": float(np.max(np.abs(np.asarray(aj) - J2)))})
-    return y, H
+            raise Bad(tag + "vector derivatives at aligned geometry != aligned vector derivatives" + LATER,
+                      {"max_abs_diff": float(np.max(np.abs(np.asarray(aj) - J2))) if np.asarray(aj).shape == J2.shape else None})
 
 
 def oracle(case):
-    """Evaluate the property on the implementation for one oracle case. Returns None or (what, observed)."""
+    """Evaluate the property on the implementation for one oracle case. Returns None or (what, observed).
+    Discipline: first everything is transformed and the returned arrays are retained (first geometry, a second geometry and a
+    second set of couplings through the same live recipe object, the first geometry through ANOTHER recipe for the same number
+    of atoms), only then is anything judged - a result that a later call changed behind the caller's back is thereby seen."""
     from qcelemental.util import blockwise_expand, blockwise_contract
     md = case["mill"]
     m = mk_mill(md)
@@ -573,33 +628,44 @@ def oracle(case):
     R = np.array(md["rotation"], dtype=float)
     q = [p.index(k) for k in range(n)]
     try:
-        y, H = covariance(m, md, case, x)
-        # per-atom arrays follow the same map
+        first = transform(m, md, case, x)
+        y, H = first["y"], first["H"]
         labels = np.array(["A%d" % k for k in range(n)])
         masses = np.array([1.0 + 0.25 * k for k in range(n)])
-        if list(m.align_atoms(labels)) != [labels[k] for k in p] or list(m.align_atoms(masses)) != [masses[k] for k in p]:
-            raise Bad("align_atoms does not permute per-atom arrays by atommap", {"got": [str(s) for s in m.align_atoms(labels)]})
+        al_labels, al_masses = m.align_atoms(labels), m.align_atoms(masses)
         sysres = m.align_system(x, masses, labels, np.arange(n), labels)
+        mini = m.align_mini_system(x, labels)
+        rsys = m.align_mini_system(x, labels, reverse=True)
+        rev = pure(m.align_coordinates, x, "align_coordinates(reverse=True)", reverse=True)
+        # the same live recipe object applied to a second geometry (uniformly stretched and displaced: other energy,
+        # gradient, Hessian) and to other couplings (another field at the first geometry)
+        second = transform(m, md, case, 1.25 * x + 0.375, tag="second geometry through the same recipe object: ")
+        third = transform(m, md, case, x, tag="other couplings through the same recipe object: ", scale=-0.625)
+        # another recipe for the same number of atoms: the inverse one (shift, rotation.T, inverse map, mirror)
+        mdinv = {"shift": md["shift"], "rotation": R.T.tolist(), "atommap": q, "mirror": md["mirror"]}
+        minv = mk_mill(mdinv)
+        fourth = transform(minv, mdinv, case, x, tag="inverse recipe (another recipe object, same number of atoms): ")
+        back = minv.align_coordinates(rev)
+        # ---- nothing was compared so far; now judge, oldest result first
+        for t in (first, second, third, fourth):
+            judge(case, t)
+        # per-atom arrays follow the same map
+        if list(al_labels) != [labels[k] for k in p] or list(al_masses) != [masses[k] for k in p]:
+            raise Bad("align_atoms does not permute per-atom arrays by atommap", {"got": [str(s) for s in al_labels]})
         if not (np.array_equal(sysres[0], y) and list(sysres[1]) == [masses[k] for k in p] and list(sysres[2]) == [labels[k] for k in p]
                 and list(sysres[3]) == p and list(sysres[4]) == [labels[k] for k in p]):
             raise Bad("align_system disagrees with align_coordinates/align_atoms")
-        mini = m.align_mini_system(x, labels)
         if not (np.array_equal(mini[0], y) and list(mini[1]) == [labels[k] for k in p]):
             raise Bad("align_mini_system disagrees with align_coordinates/align_atoms")
         # blocking round trip (exact: no arithmetic involved)
         if not np.array_equal(blockwise_contract(blockwise_expand(H, (3, 3), False)), H):
             raise Bad("blockwise_contract(blockwise_expand(H)) != H")
         # inverse recipe: forward of (shift, rotation.T, inverse map, mirror) undoes reverse of the recipe
-        minv = mk_mill({"shift": md["shift"], "rotation": R.T.tolist(), "atommap": q, "mirror": md["mirror"]})
-        back = minv.align_coordinates(pure(m.align_coordinates, x, "align_coordinates(reverse=True)", reverse=True))
         if not close(back, x):
             raise Bad("forward transform of the inverse recipe does not undo the reverse transform", {"got": np.asarray(back).tolist()})
-        rsys = m.align_mini_system(x, labels, reverse=True)
-        if not np.array_equal(rsys[0], m.align_coordinates(x, reverse=True)):
+        if not np.array_equal(rsys[0], m.align_coordinates(x, reverse=True)) or not np.array_equal(rsys[0], rev):
             raise Bad("align_mini_system(reverse=True) disagrees with align_coordinates(reverse=True)")
-        # the same live recipe object applied to a second geometry (uniformly stretched and displaced: other energy,
-        # gradient, Hessian) and then to the first one again: nothing may be left behind by an earlier call
-        covariance(m, md, case, 1.25 * x + 0.375, tag="second geometry through the same recipe object: ")
+        # and the first geometry once more: nothing may be left behind by an earlier call
         y3 = m.align_coordinates(x)
         if not np.array_equal(y3, y):
             raise Bad("aligning the same geometry again through the same recipe object gives another result")
@@ -634,7 +700,8 @@ def correspond(ctx):
     rng = ctx.rng
     corr.rule = ("model-vs-implementation cases: the nine operations x (cube-group rotations with dyadic data, exact) / "
                  "(integer-quaternion rotations, 1e-10) x permutations of 1-10 atoms x mirror on/off, ~12% ill-formed atom maps; "
-                 "oracle cases: analytic energies/vector fields at random geometries under random recipes; a case is "
+                 "oracle cases: analytic energies/vector fields at random geometries under random recipes, four transformations per case "
+                 "retained and then judged; a case is "
                  "non-trivial if the recipe is not the identity (rotation != I or shift != 0 or atommap not sorted or mirror); "
                  "distinct = distinct inputs")
     n_model = 16000 if ctx.thorough else 1260
@@ -767,6 +834,7 @@ def replay(ctx, rp):
         B = np.array(case["x"], dtype=float).reshape(gr, gc, br, bc)
         try:
             arr = blockwise_contract(B)
+            blockwise_contract(1.0 - B)
             want = B.transpose(0, 2, 1, 3).reshape(gr * br, gc * bc)
             return {"case": case, "observed": {"shape": list(arr.shape)}, "fails": not (arr.shape == want.shape and np.array_equal(arr, want))}
         except Exception as e:
@@ -777,6 +845,7 @@ def replay(ctx, rp):
         (h, w), (br, bc) = case["shape"], case["block"]
         try:
             view = blockwise_expand(a.copy(), (br, bc), False, case["require_aligned_blocks"])
+            blockwise_expand(1.0 - a, (br, bc), False, case["require_aligned_blocks"])
             back = blockwise_contract(np.array(view))
             want = a[:(h // br) * br, :(w // bc) * bc]
             fails = not (back.shape == want.shape and np.array_equal(back, want)) or bool(case["require_aligned_blocks"] and (h % br or w % bc))
@@ -815,22 +884,27 @@ LEVEL_TEXT = (
     "geometry is align_vector_gradient of the original Jacobian. "
     "Tie: the bodies of align_coordinates/align_atoms/align_vector/align_gradient/align_hessian and the per-atom block of "
     "align_vector_gradient are translated from models/align.py on every run (Gen/MillGen.v) and PROVED equal to the model for all "
-    "inputs (C13_translated_coordinates_is_model, _gradient_, _hessian_, _atoms_vector_datom_); the whole model (incl. np_blockwise "
+    "inputs (C13_translated_coordinates_is_model, _gradient_, _hessian_, _atoms_vector_datom_), and so is the whole method "
+    "align_vector_gradient with its atom loop - index read, slice reads, rotation, slice stores into the zero-initialised result, "
+    "first exception wins - for all inputs of three equally long rows (C13_translated_vector_gradient_loop_is_model); the whole model (incl. np_blockwise "
     "with any block shape and the IndexError/AssertionError behaviour) is also run against the implementation at K = Q (exact on "
     "dyadic data with the 24 cube-group rotations, 1e-10 on integer-quaternion rotations) and the "
     "property itself is evaluated on the implementation with analytic Coulomb/harmonic pair + three-body energies and a "
     "covariant vector field with closed-form derivatives, mirror on/off, permutations of 1-10 atoms, the full option product "
-    "(identity/general rotation x zero/non-zero shift x identity/non-involutive map x mirror), a second geometry through the same "
-    "live recipe object, and a check that no method modifies the array it is given.")
+    "(identity/general rotation x zero/non-zero shift x identity/non-involutive map x mirror), a second geometry and a second "
+    "set of couplings through the same live recipe object plus the inverse recipe for the same atom count, all results RETAINED as "
+    "returned and judged only after all calls (a result overwritten by a later call is seen), arguments in C/Fortran/strided "
+    "layout, caller's buffers overwritten after the call in half of the cases, and a check that no method modifies the array it "
+    "is given.")
 LEVEL_NOTE = (
     "Clause map: invariant-energy gradient/Hessian covariance -> C13_invariant_energy_gradient_covariant/_hessian_covariant (+ "
     "coords_affine, gradient_is_L, hessian_is_LHLt, L_orthogonal, line_transport); per-atom arrays -> C13_atoms_same_map; vectors "
     "and their derivatives without mirror -> C13_vector_is_rotT, C13_vector_gradient_covariant, C13_covariant_vector_jacobian; "
     "lossless 3x3 blocking -> C13_blockwise_lossless (+ the four any-block-shape theorems); forward/reverse -> "
-    "C13_reverse_inverts_forward; errors -> C13_wellformed_total; model = code -> C13_translated_* (generated from the source). Only "
-    "correspondence/oracle: the atom loop around the per-atom block of align_vector_gradient, np_blockwise, align_system/"
-    "align_mini_system. No clause without a theorem. "
-    "Trusted: Coq kernel + vm_compute; the translator harness/translate/millgen.py and the array combinators of Model/MillOps.v "
+    "C13_reverse_inverts_forward; errors -> C13_wellformed_total; model = code -> C13_translated_* (generated from the source; since "
+    "wave 4 including the atom loop of align_vector_gradient: C13_translated_vector_gradient_loop_is_model). Only "
+    "correspondence/oracle: np_blockwise, align_system/align_mini_system. No clause without a theorem. "
+    "Trusted: Coq kernel + vm_compute; the translator harness/translate/millgen.py and the array / loop / slice-store combinators of Model/MillOps.v and Model/MillLoop.v "
     "(numpy dot/broadcast/fancy-indexing/as_strided/reshape/swapaxes semantics transcribed, not verified); non-negative atommap "
     "entries; 2-d arrays for np_blockwise; binary64 rounding of the implementation is "
     "outside the model (exact rationals; compared exactly on dyadic inputs and within 1e-10 otherwise); the closed-form "
